@@ -115,10 +115,23 @@ def long_flat_case(draw):
     return {"kind": "flat", "first": first, "rest": rest, "blanks": draw(st.booleans())}
 
 
+NEAR = [("0.1+0.2", "0.3"), ("0.3", "0.1+0.2"), ("1", "1.0000000001"), ("1/49*49", "1"), ("0.1*3", "0.3"), ("2.5", "2.5"),
+        ("1e16+1", "1e16"), ("0.7+0.1", "0.8"), ("1.1*1.1", "1.21"), ("3", "3.0"), ("4.35*100", "435"), ("1/3*3", "1")]
+
+
+@st.composite
+def near_equal_case(draw):
+    """comparisons of numbers that differ by rounding noise or not at all: decided by the exact values, as Python does"""
+    left, right = draw(st.sampled_from(NEAR))
+    return {"kind": "near", "left": left, "right": right, "op": draw(st.sampled_from(["==", "!=", "<=", ">=", "<", ">"])),
+            "blanks": draw(st.booleans())}
+
+
 def strategies(tier):
     dq, dt = 2, 4
     return {
         "long_flat": (long_flat_case(), 80, 1500, 10),
+        "near_equal": (near_equal_case(), 100, 600),
         "valid": (valid_case(dq if tier == "quick" else dt), 3000, 60000),
         "illformed": (illformed_case(dq if tier == "quick" else dt), 2000, 40000),
     }
@@ -343,7 +356,41 @@ def check_flat(case, v):
     v.label("long_flat")
 
 
+def _flat_value(text):
+    """products and quotients first (left to right), then sums and differences (left to right)"""
+    import re
+    toks = re.findall(r"[-+*/]|[0-9.]+(?:e[0-9]+)?", text)
+    terms, ops = [float(toks[0])], []
+    for op, x in zip(toks[1::2], toks[2::2]):
+        if op in "*/":
+            terms[-1] = terms[-1] * float(x) if op == "*" else terms[-1] / float(x)
+        else:
+            ops.append(op)
+            terms.append(float(x))
+    acc = terms[0]
+    for op, t in zip(ops, terms[1:]):
+        acc = acc + t if op == "+" else acc - t
+    return acc
+
+
+def check_near(case, v):
+    import operator
+    a, b = _flat_value(case["left"]), _flat_value(case["right"])
+    want = {"==": operator.eq, "!=": operator.ne, "<=": operator.le, ">=": operator.ge, "<": operator.lt, ">": operator.gt}[case["op"]](a, b)
+    sep = " " if case["blanks"] else ""
+    text = f"{case['left']}{sep}{case['op']}{sep}{case['right']}"
+    try:
+        r = _solve(text)
+    except Exception as e:
+        return v.fail("valid-raised", f"solve({text!r}) raised {e!r}")
+    got = getattr(r, "value", r)
+    if bool(got) != want or not isinstance(got, (bool, np.bool_)):
+        return v.fail("value", f"solve({text!r}) = {got!r}, expected {want!r} ({a!r} {case['op']} {b!r})")
+    v.nt(True)
+    v.label("near_equal_comparison", "equal_operands" if a == b else "operands_differ_by_rounding")
+
+
 def check(case):
     v = Verdict()
-    {"valid": check_valid, "ill": check_ill, "flat": check_flat}[case["kind"]](case, v)
+    {"valid": check_valid, "ill": check_ill, "flat": check_flat, "near": check_near}[case["kind"]](case, v)
     return v
